@@ -279,6 +279,25 @@ func init() {
 	}
 	appInt("AppendInt", true)
 	appInt("AppendUint", false)
+	// encoding/json is reflection; only the case "this is not JSON at all" is modelled (free-form
+	// metadata text): concrete data whose first non-space byte cannot start a JSON value.
+	E["encoding/json.Unmarshal"] = func(fr *frame, args []value) value {
+		data, _ := args[0].([]value)
+		for _, e := range data {
+			c, ok := e.(uint8)
+			if !ok {
+				break
+			}
+			if c == ' ' || c == '\t' || c == '\n' || c == '\r' {
+				continue
+			}
+			if strings.IndexByte("{[\"-0123456789tfn", c) < 0 {
+				return fr.i.newError("invalid character looking for beginning of value", iface{})
+			}
+			break
+		}
+		panic(engineError{"encoding/json.Unmarshal: only text that is not JSON is modelled"})
+	}
 	E["internal/stringslite.Clone"] = func(fr *frame, args []value) value { return args[0] }
 	E["strings.Clone"] = E["internal/stringslite.Clone"]
 	E["strings.Count"] = func(fr *frame, args []value) value {
